@@ -26,8 +26,7 @@ def scenarios(quick):
             (T.balance2(maxseq=2), 'SpecZL', {})] +
            ([] if quick else [(T.balance2(maxseq=3), 'SpecZL', {}), (T.balance2(maxseq=1), 'SpecPrompt', {}),
                               (T.balance2_watch(maxseq=2), 'SpecZL', {})]),
-        mut=[(T.balance2(maxseq=2), 'SpecZL', ['bal_all_pubs'], {}),
-             (T.balance2(maxseq=3), 'SpecZL', ['prefetch_first_hop'], {})],
+        mut=[(T.balance2(maxseq=2), 'SpecZL', ['bal_all_pubs'], {})],
         conf=[(T.balance2(maxseq=3), 'SpecPrompt', 10 if quick else 120, 250),
               (slow1, 'SpecPrompt', 8 if quick else 100, 300),
               (T.balance2_watch(maxseq=3), 'SpecPrompt', 6 if quick else 80, 250)],
@@ -49,7 +48,7 @@ def run(ctx):
     for topo, spec, bounds in sc['mc']:
         eng.model_check(topo, spec, invariants=INV, bounds=bounds, timeout=900 if ctx.quick else 3000)
     for topo, spec, muts, bounds in sc['mut']:
-        eng.mutation_schedules(topo, spec, muts, invariant='NoViolation', bounds=bounds, timeout=150 if ctx.quick else 900)
+        eng.mutation_schedules(topo, spec, muts, invariant='C07', bounds=bounds, timeout=150 if ctx.quick else 900)
     for topo, spec, num, depth in sc['conf']:
         eng.conformance(topo, spec, num, depth)
     for topo, n, steps, pt in sc['rand']:
